@@ -18,6 +18,8 @@ permutation of `w.universe`, so "equals the Result of an uninterrupted run" is
 -/
 import CobaVerif.Lemmas.C02
 import CobaVerif.Generated.C02ScanConsts
+import CobaVerif.Generated.C02MaxChunker
+import CobaVerif.Generated.C02SinkLoop
 
 namespace Coba.C02
 open Ex
@@ -551,5 +553,106 @@ theorem empty_rows_counterexample :
 theorem empty_rows_repaired :
     (resume Flags.fixed Ex.w0 (some Ex.full0)).map (fun o => (o.tasks, o.final.map keysNodup))
       = some ([], some true) := by decide
+
+/-! ### Phase 5: size thresholds as theorems — `maxtasksperchunk`, one gzip member per record, read windows; shape test -/
+
+/-- [phase 5] `resume_chunking_complete`: for EVERY `maxtasksperchunk = k ≥ 1` and every list of (remaining) tasks — whether or
+not `k` divides their number — `_max_chunker` loses and repeats nothing: the sub-chunks concatenated are the list itself, none
+is empty or longer than `k`, and all but the last hold exactly `k` tasks -/
+theorem resume_chunking_complete (k : Nat) (hk : 1 ≤ k) (l : List Task) :
+    (batches k l).flatten = l ∧ (∀ b ∈ batches k l, b ≠ [] ∧ b.length ≤ k) ∧ (∀ b ∈ (batches k l).dropLast, b.length = k) :=
+  resume_chunking_complete' k hk l
+
+example : batches 2 [Task.penv 0, Task.eval 0 0 0, Task.eval 0 1 0] = [[Task.penv 0, Task.eval 0 0 0], [Task.eval 0 1 0]] := by decide
+
+/-- [phase 5] the same for the whole ChunkTasks step of a resumed run: whatever was restored (`K`), whichever environments are
+chunk()ed and whatever `k` (0 = no limit), every task MakeTasks emitted is in exactly one chunk -/
+theorem resume_chunking_no_task_twice (chunkOf : Nat → Option Nat) (k : Nat) (K : List Rec) (triples : List (Nat × Nat × Nat))
+    (h : (makeTasks true K triples).Nodup) :
+    (chunkTasks chunkOf k (makeTasks true K triples)).flatten.Perm (makeTasks true K triples) ∧
+    (chunkTasks chunkOf k (makeTasks true K triples)).flatten.Nodup :=
+  resume_chunks_nodup' chunkOf k K triples h
+
+example : (makeTasks true [] [(0, 0, 0), (0, 1, 0)]).Nodup := by decide
+
+/-- [phase 5] `_max_chunker` run as the small program the translator extracts from the source (`islice` batches in a
+`while batch != []` loop) yields exactly the model's `batches`, for every `max_tasks` (0 = None) and every task list -/
+theorem max_chunker_prog_eq_batches (m : Nat) (l : List Task) : runChunker maxChunkerProg m l = batches m l :=
+  max_chunker_prog_eq_batches' m l
+
+/-- [phase 5, translator obligation] the program extracted from the CURRENT source of `ChunkTasks._max_chunker` is the one the
+model runs, nothing in the function was inexpressible, `__init__` stores `max_tasks or None` and `_chunks` passes it on -/
+theorem max_chunker_as_modelled :
+    Coba.Generated.C02Chunker.prog = maxChunkerProg ∧ Coba.Generated.C02Chunker.unknown = [] ∧
+    Coba.Generated.C02Chunker.maxTasksInit = "max_tasks or None" ∧ Coba.Generated.C02Chunker.maxTasksArg = "self._max_tasks" := by
+  decide
+
+/-- [phase 5] `gz_member_per_record`: `DiskSink.write` with `batch=1` opens and closes the file once per line — every record is
+its own gzip member — and once more for an empty batch after the last line (the empty member every run leaves) -/
+theorem gz_member_per_record (lines : List Bytes) : sinkWrite 1 lines = lines.map (fun x => [x]) ++ [[]] :=
+  gz_member_per_record' lines
+
+/-- [phase 5] for every batch size (0 = None) the write loop writes every line exactly once, in order -/
+theorem sink_write_complete (b : Nat) (lines : List Bytes) : (sinkWrite b lines).flatten = lines :=
+  sink_write_complete' b lines
+
+/-- [phase 5, translator obligation] `Experiment.run` builds `DiskSink(result_file, batch=1)` and the write loop of the CURRENT
+source has the statements `sinkWrite` mirrors (the `with self:` inside the `while`, one write + flush per line, `_get_batch` =
+`islice(lines, self._batch)`, `_unfinished` = not started or a full batch) -/
+theorem sink_loop_as_modelled :
+    Coba.Generated.C02Sink.batch = 1 ∧
+    Coba.Generated.C02Sink.loopShape = ["while:self._unfinished(batch)", "batch=self._get_batch(lines)", "with-self-inside-while",
+      "for-line-inside-with", "write:(line+'\\n').encode", "flush-after-each-write", "get_batch:islice(lines,self._batch)",
+      "get_batch:list-when-batch", "unfinished:batch-is-None", "unfinished:list-of-len==self._batch", "unfinished:or"] := by
+  decide
+
+/-- [phase 5] `drop_torn_tail_window_independent`: a torn-tail repair that inspects only the last `W` bytes of a plain file
+truncates/terminates at the same point as the committed one (which reads the whole file) for EVERY `W` whose window still
+contains a newline, or covers the file — whatever the length of the records before it -/
+theorem drop_torn_tail_window_independent (c : Codec) (W : Nat) (file : Bytes)
+    (h : NL ∈ file.drop (file.length - W) ∨ file.length ≤ W) : repairWin c W file = repair c file :=
+  drop_torn_tail_window_independent' c W file h
+
+example : NL ∈ ([91, 93, 10, 91] : Bytes).drop (([91, 93, 10, 91] : Bytes).length - 2) := by decide
+
+/-- the hypothesis is necessary — a final record longer than the window: the windowed repair leaves the head of the torn record
+in the file and every later read raises (the 64 KiB mutant of round a); with a window that reaches the newline it is right -/
+theorem window_counterexample :
+    let c := tableCodec [(⟨.ver, 0, 0⟩, [91, 93])]
+    let file : Bytes := [91, 93, 10, 91, 91, 91, 91]
+    repair c file = [91, 93, 10] ∧ decodeAll c (repair c file) = some [⟨.ver, 0, 0⟩] ∧
+    repairWin c 2 file = [91, 93, 10, 91, 91] ∧ decodeAll c (repairWin c 2 file) = none ∧
+    repairWin c 5 file = repair c file :=
+  window_counterexample'
+
+/-- [phase 5] the shape test counts learners and environments only: replacing the evaluators of the triples (more, fewer,
+others) leaves (`n_learners`, `n_environments`) as they are — with `no_mismatch_own` the test can not fire on such a re-run -/
+theorem shape_ignores_evaluators (ts : List (Nat × Nat × Nat)) (g : Nat × Nat × Nat → Nat) :
+    givenShape (ts.map (fun t => (t.1, t.2.1, g t))) = givenShape ts :=
+  shape_ignores_evaluators' ts g
+
+/-! ### Phase 5: multi-process runs — what the order of the records can be -/
+
+/-- [phase 5] `multiprocess_order`: whatever the workers' schedule, when the records arrive as ANY interleaving of the per-chunk
+sequences (each chunk is run by one worker in ProcessTasks order and the queues keep each producer's order), every chunk's
+records appear in the file in ProcessTasks order (per-chunk FIFO) and the resumed run is correct as in `resume_correct` -/
+theorem multiprocess_order (w : World) (hw : w.OK) (L : List Rec) (hL : ValidLog w L) (k : Nat)
+    (chunkOf : Nat → Option Nat) (m : Nat) :
+    ∃ K, restore Flags.fixed w.c (some (cut w L k)) = some ⟨logFile w K, K⟩ ∧ K <+: L ∧
+      ∀ app, Merge ((chunkTasks chunkOf m (makeTasks true K w.triples)).map (fun c => (processOrder c).filterMap w.out)) app →
+        (∀ c ∈ chunkTasks chunkOf m (makeTasks true K w.triples), ((processOrder c).filterMap w.out).Sublist app) ∧
+        let o := finish w.c ⟨logFile w K, K⟩ (makeTasks true K w.triples) (preamble Flags.fixed w.ver w.exp K) app
+        o.file = logFile w (K ++ o.appended) ∧ o.final = some (K ++ o.appended) ∧ ValidLog w (K ++ o.appended) ∧
+        (K ++ o.appended).Perm w.universe ∧ (∀ t ∈ o.tasks, ∀ r ∈ K, r.key ≠ t.key) :=
+  multiprocess_order' w hw L hL k chunkOf m
+
+/-- [phase 5] an interleaving loses and invents nothing and keeps every sequence's order -/
+theorem merge_perm_sublist {α : Type} (ls : List (List α)) (out : List α) (h : Merge ls out) :
+    out.Perm ls.flatten ∧ ∀ l ∈ ls, l.Sublist out :=
+  ⟨merge_perm' ls out h, merge_sublist' ls out h⟩
+
+/-- the hypothesis of `multiprocess_order` is satisfiable: the single-process order is one of the interleavings -/
+theorem merge_sequential {α : Type} (ls : List (List α)) : Merge ls ls.flatten :=
+  merge_flatten' ls
 
 end Coba.C02
